@@ -300,7 +300,7 @@ impl<'a> Flat<'a> {
                 Node::Def(name, r) => push(self, Item::Def(name.clone(), *r)),
                 Node::Undef(name) => push(self, Item::Undef(name.clone())),
                 Node::Define(name) => {
-                    if self.equs.contains_key(&name.to_lowercase()) {
+                    if self.equs.contains_key(&name.to_lowercase()) || name.eq_ignore_ascii_case("pc") {
                         return fail(FailKind::DuplicateSymbol(name.clone()), file, here);
                     }
                     self.defines.insert(name.clone());
